@@ -31,10 +31,21 @@ REVERSERS = {"rev", "rfind", "rfold", "rposition"}
 class Ad:
     """one adapter instance: konst text, std text (S form), std text in the hoisted form"""
 
-    def __init__(self, name, k, s=None, h=None):
+    def __init__(self, name, k, s=None, h=None, key=None):
         self.name, self.k = name, k
         self.s = s if s is not None else k
         self.h = h if h is not None else self.s
+        self.key = key  # u32 expression over the closure's pattern variables (trace family), None = no closure
+
+
+def wrap_closure(text, idx, key):
+    """`name(prefix |params| body)` -> `name(prefix |params| { tr(idx, key); body })`"""
+    if key is None:
+        return text
+    m = re.match(r"^(.*?)\|([^|]*)\|\s*(.*)\)$", text, re.S)
+    if not m:
+        return text
+    return "%s|%s| { tr(%d, %s); %s })" % (m.group(1), m.group(2), idx, key, m.group(3))
 
 
 def adapters_for(state, dei, esi, has_rev, nlit=None):
@@ -47,20 +58,20 @@ def adapters_for(state, dei, esi, has_rev, nlit=None):
     pv, pr, k = PATV[state], PATR[state], KEY[state]
     if state == "R":
         out.append((Ad("copied", "copied()"), "V", dei, esi))
-    out.append((Ad("map", "map(|%s| %s.wrapping_mul(3).wrapping_add(1))" % (pv, k)), "V", dei, esi))
+    out.append((Ad("map", "map(|%s| %s.wrapping_mul(3).wrapping_add(1))" % (pv, k), key=k), "V", dei, esi))
     if state == "V":
-        out.append((Ad("map_pair", "map(|x| (x, x.wrapping_add(1)))"), "Q", dei, esi))
-    out.append((Ad("filter", "filter(|%s| %s %% 2 == 0)" % (pr, k)), state, dei, False))
-    out.append((Ad("filter_map", "filter_map(|%s| if %s %% 3 != 0 { Some(%s / 2) } else { None })" % (pv, k, k)), "V", dei, False))
-    out.append((Ad("flat_map", "flat_map(|%s| 0u32..(%s %% 3))" % (pv, k), None, "flat_map(|%s| (0u32..(%s %% 3)).rev())" % (pv, k)), "V", dei, False))
+        out.append((Ad("map_pair", "map(|x| (x, x.wrapping_add(1)))", key="x"), "Q", dei, esi))
+    out.append((Ad("filter", "filter(|%s| %s %% 2 == 0)" % (pr, k), key=k), state, dei, False))
+    out.append((Ad("filter_map", "filter_map(|%s| if %s %% 3 != 0 { Some(%s / 2) } else { None })" % (pv, k, k), key=k), "V", dei, False))
+    out.append((Ad("flat_map", "flat_map(|%s| 0u32..(%s %% 3))" % (pv, k), None, "flat_map(|%s| (0u32..(%s %% 3)).rev())" % (pv, k), key=k), "V", dei, False))
     if state == "V":
         out.append((Ad("enumerate", "enumerate()"), "P", dei and esi, esi))
         out.append((Ad("zip_short", "zip(100u32..102)", None, "zip((100u32..102).rev())"), "Q", dei and esi, esi))
         out.append((Ad("zip_long", "zip(100u32..109)", None, "zip((100u32..109).rev())"), "Q", dei and esi, esi))
     out.append((Ad("skip", "skip(%s)" % n), state, dei and esi, esi))
     out.append((Ad("take", "take(%s)" % n), state, dei and esi, esi))
-    out.append((Ad("skip_while", "skip_while(|%s| %s < 4)" % (pr, k)), state, False, False))
-    out.append((Ad("take_while", "take_while(|%s| %s < 6)" % (pr, k)), state, False, False))
+    out.append((Ad("skip_while", "skip_while(|%s| %s < 4)" % (pr, k), key=k), state, False, False))
+    out.append((Ad("take_while", "take_while(|%s| %s < 6)" % (pr, k), key=k), state, False, False))
     if not has_rev and dei:
         out.append((Ad("rev", "rev()", "rev()", ""), state, dei, esi))
     return out
@@ -100,8 +111,14 @@ SOURCES = {
 
 
 class Prog:
-    def __init__(self, src, ads, cons):
-        self.src, self.ads, self.cons = src, ads, cons
+    def __init__(self, src, ads, cons, ckey=None, trace=False):
+        self.src, self.ads, self.cons, self.ckey, self.trace = src, ads, cons, ckey, trace
+
+    def traced(self):
+        return Prog(self.src, self.ads, self.cons, self.ckey, True)
+
+    def closures(self):
+        return sum(1 for a in self.ads if a.key) + (1 if (self.cons[1] and "|" in self.cons[1]) else 0)
 
     def names(self):
         return [self.src] + [a.name for a in self.ads] + [self.cons[0]]
@@ -129,24 +146,50 @@ class Prog:
             return "K1:%s-before-%s" % ("zip" if a.startswith("zip") else a, reverser)
         return "S"
 
-    def chain(self, which):
+    def chain(self, which, k5=False):
         ksrc, ssrc, hsrc, _, _ = SOURCES[self.src]
+        w0 = (lambda txt, i, a: wrap_closure(txt, i, a.key)) if self.trace else (lambda txt, i, a: txt)
+        # K5 model: konst's take(n) pulls (and discards) one more upstream element before it stops
+        w = (lambda txt, i, a: ("take_extra" + txt[4:]) if (k5 and a.name == "take") else w0(txt, i, a))
         if which == "k":
-            parts = [a.k for a in self.ads]
+            parts = [w(a.k, i, a) for i, a in enumerate(self.ads)]
             return ksrc, parts
         if which == "s":
-            return ssrc, [a.s for a in self.ads]
+            return ssrc, [w(a.s, i, a) for i, a in enumerate(self.ads)]
         # only the adapters that precede the reverser pull from the back; the ones after it run forwards
         ri = self.reverser_index()
         ri = len(self.ads) if ri is None else ri
-        return hsrc, [(a.h if i < ri else a.s) for i, a in enumerate(self.ads) if a.name != "rev"]
+        return hsrc, [w(a.h if i < ri else a.s, i, a) for i, a in enumerate(self.ads) if a.name != "rev"]
 
     def exprs(self):
         name, kc, sc, hc = self.cons
+        if self.trace and kc and "|" in kc:
+            ci = len(self.ads)
+            kc, sc, hc = (wrap_closure(x, ci, self.ckey) if x else x for x in (kc, sc, hc))
         ksrc, kparts = self.chain("k")
         ssrc, sparts = self.chain("s")
         hsrc, hparts = self.chain("h")
         has_rev = self.reverser_index() is not None
+        if self.trace:
+            # (konst, expected std form, the same form under the K5 model or None)
+            exp_h = self.expectation() == "H"
+            esrc, eparts = (hsrc, hparts) if exp_h else (ssrc, sparts)
+            ec = (hc or sc or kc) if exp_h else (sc or kc)
+            has_take = any(a.name == "take" for a in self.ads)
+            fsrc, fparts = self.chain("h" if exp_h else "s", k5=True)
+            esrc, fsrc = esrc + ".opaque()", fsrc + ".opaque()"
+            if name in ("for_each", "for_each_block"):
+                if name == "for_each":
+                    k = "{ let mut v = Vec::new(); konst::iter::eval!(%s, for_each(|e| v.push(e))); v }" % ", ".join([ksrc] + kparts)
+                else:
+                    k = "{ let mut v = Vec::new(); konst::iter::for_each!{e in %s => v.push(e);} v }" % ", ".join([ksrc] + kparts)
+                e = "%s.collect::<Vec<_>>()" % ".".join([esrc] + eparts)
+                f = "%s.collect::<Vec<_>>()" % ".".join([fsrc] + fparts)
+            else:
+                k = "konst::iter::eval!(%s)" % ", ".join([ksrc] + kparts + [kc])
+                e = ".".join([esrc] + eparts + [ec])
+                f = ".".join([fsrc] + fparts + [ec])
+            return k, e, (f if has_take else None)
         if name == "for_each":
             k = "{ let mut v = Vec::new(); konst::iter::eval!(%s, for_each(|e| v.push(e))); v }" % ", ".join([ksrc] + kparts)
             s = "%s.collect::<Vec<_>>()" % ".".join([ssrc] + sparts)
@@ -168,7 +211,7 @@ def all_programs(max_depth):
         def rec(state, dei, esi, has_rev, ads):
             if state != "A":
                 for c in consumers_for(state, dei, esi, has_rev):
-                    p = Prog(src, list(ads), c)
+                    p = Prog(src, list(ads), c, KEY[state])
                     if p.expectation() is not None:
                         progs.append(p)
             if len(ads) < max_depth:
@@ -192,7 +235,7 @@ def random_program(rnd, dmin, dmax):
         if state == "A":
             continue
         c = rnd.choice(consumers_for(state, dei, esi, has_rev))
-        p = Prog(src, ads, c)
+        p = Prog(src, ads, c, KEY[state])
         if ok and p.expectation() is not None:
             return p
 
@@ -224,9 +267,37 @@ fn nested(maxlen: usize) -> Vec<Vec<[u32; 2]>> {
     }
     out
 }
-struct Tally { evals: u64, both: u64, s_only: u64, h_only: u64, neither: u64, panics: u64, first: Option<String>, worst: bool }
+thread_local! { static TRACE: std::cell::RefCell<Vec<(u8, u32)>> = std::cell::RefCell::new(Vec::new()); }
+/// closure-call monitor of the trace family: which closure of the chain was called on which element
+fn tr(i: usize, k: u32) { TRACE.with(|t| t.borrow_mut().push((i as u8, k))); }
+/// the calls since the last take, as a multiset (order of side effects is not part of the property)
+fn take_trace() -> Vec<(u8, u32)> { let mut v = TRACE.with(|t| std::mem::take(&mut *t.borrow_mut())); v.sort(); v }
+/// hides TrustedRandomAccess from std's adapters: the specialised Zip/fold paths skip or add closure calls
+/// on the element after the shorter side ends, the plain `a.next()? ; b.next()?` definition does not
+struct Opaque<I>(I);
+impl<I: Iterator> Iterator for Opaque<I> { type Item = I::Item; fn next(&mut self) -> Option<I::Item> { self.0.next() } fn size_hint(&self) -> (usize, Option<usize>) { self.0.size_hint() } }
+impl<I: DoubleEndedIterator> DoubleEndedIterator for Opaque<I> { fn next_back(&mut self) -> Option<I::Item> { self.0.next_back() } }
+impl<I: ExactSizeIterator> ExactSizeIterator for Opaque<I> {}
+trait KvOpaque: Iterator + Sized { fn opaque(self) -> Opaque<Self> { Opaque(self) } }
+impl<I: Iterator> KvOpaque for I {}
+/// K5 model of konst's `take(n)`: after n items it pulls one more upstream item, discards it and stops
+struct TakeExtra<I> { it: I, n: usize, done: bool }
+impl<I: Iterator> Iterator for TakeExtra<I> {
+    type Item = I::Item;
+    fn next(&mut self) -> Option<I::Item> {
+        if self.done { return None; }
+        if self.n == 0 { self.done = true; let _ = self.it.next(); return None; }
+        self.n -= 1;
+        let x = self.it.next();
+        if x.is_none() { self.done = true; }
+        x
+    }
+}
+trait KvTakeExtra: Iterator + Sized { fn take_extra(self, n: usize) -> TakeExtra<Self> { TakeExtra { it: self, n, done: false } } }
+impl<I: Iterator> KvTakeExtra for I {}
+struct Tally { k5: u64, evals: u64, both: u64, s_only: u64, h_only: u64, neither: u64, panics: u64, first: Option<String>, worst: bool }
 fn run(id: usize, nested_src: bool, f: &dyn Fn(&[u32], &[[u32; 2]], usize) -> (u8, Option<String>)) {
-    let mut t = Tally { evals: 0, both: 0, s_only: 0, h_only: 0, neither: 0, panics: 0, first: None, worst: false };
+    let mut t = Tally { k5: 0, evals: 0, both: 0, s_only: 0, h_only: 0, neither: 0, panics: 0, first: None, worst: false };
     let xs_all = arrays(&[0, 1, 4, 6], 4);
     let ys_all = nested(2);
     let empty_x: Vec<u32> = vec![];
@@ -238,8 +309,9 @@ fn run(id: usize, nested_src: bool, f: &dyn Fn(&[u32], &[[u32; 2]], usize) -> (u
             t.evals += 1;
             match catch_unwind(AssertUnwindSafe(|| f(xs, ys, n))) {
                 Ok((bits, detail)) => {
-                    match bits { 3 => t.both += 1, 1 => t.s_only += 1, 2 => t.h_only += 1, _ => t.neither += 1 }
-                    if bits != 3 && (t.first.is_none() || (bits == 0 && !t.worst)) {
+                    match bits { 3 => t.both += 1, 1 => t.s_only += 1, 2 => t.h_only += 1, 4 => t.k5 += 1, _ => t.neither += 1 }
+                    if bits == 4 { if t.first.is_none() { t.first = Some(format!("xs={:?} ys={:?} n={} -> {}", xs, ys, n, detail.clone().unwrap_or_default())); } }
+                    if bits != 3 && bits != 4 && (t.first.is_none() || (bits == 0 && !t.worst)) {
                         t.first = Some(format!("xs={:?} ys={:?} n={} -> {}", xs, ys, n, detail.unwrap_or_default()));
                         t.worst = bits == 0;
                     }
@@ -248,7 +320,7 @@ fn run(id: usize, nested_src: bool, f: &dyn Fn(&[u32], &[[u32; 2]], usize) -> (u
             }
         }
     }
-    println!("P\t{}\t{}\t{}\t{}\t{}\t{}\t{}\t{}", id, t.evals, t.both, t.s_only, t.h_only, t.neither, t.panics, t.first.unwrap_or_default().replace('\t', " ").replace('\n', " "));
+    println!("P\t{}\t{}\t{}\t{}\t{}\t{}\t{}\t{}\t{}", id, t.evals, t.both, t.s_only, t.h_only, t.neither, t.panics, t.first.unwrap_or_default().replace('\t', " ").replace('\n', " "), t.k5);
 }
 '''
 
@@ -258,6 +330,17 @@ def render_file(progs_with_ids):
     fns = []
     for pid, p in progs_with_ids:
         k, s, h = p.exprs()
+        if p.trace:
+            # k = konst, s = the expected std form (plain or hoisted), h = that form under the K5 model (or None)
+            k, s = ("{ let _ = take_trace(); let r = %s; (r, take_trace()) }" % e for e in (k, s))
+            body = "#[inline(never)]\nfn p%d(xs: &[u32], ys: &[[u32; 2]], n: usize) -> (u8, Option<String>) {\n    let k = %s;\n    let s = %s;\n" % (pid, k, s)
+            if h is not None:
+                body += "    let f = { let _ = take_trace(); let r = %s; (r, take_trace()) };\n    let bits = if k == s { 3 } else if k == f { 4 } else { 0 };\n    (bits, if bits == 3 { None } else { Some(format!(\"konst={:?} std={:?} K5-model={:?}\", k, s, f)) })\n}\n" % h
+            else:
+                body += "    let bits = if k == s { 3 } else { 0 };\n    (bits, if bits == 3 { None } else { Some(format!(\"konst={:?} std={:?}\", k, s)) })\n}\n"
+            fns.append(body)
+            parts.append("    run(%d, %s, &p%d);\n" % (pid, "true" if SOURCES[p.src][4] else "false", pid))
+            continue
         body = "#[inline(never)]\nfn p%d(xs: &[u32], ys: &[[u32; 2]], n: usize) -> (u8, Option<String>) {\n    let k = %s;\n    let s = %s;\n" % (pid, k, s)
         if h is not None:
             body += "    let h = %s;\n    let bits = ((k == s) as u8) | (((k == h) as u8) << 1);\n    (bits, if bits == 3 { None } else { Some(format!(\"konst={:?} std={:?} hoisted={:?}\", k, s, h)) })\n}\n" % h
@@ -344,6 +427,17 @@ def run(out, tier, seed):
     for _ in range(nrand):
         p = random_program(rnd, 4 if thorough else 3, 6 if thorough else 5)
         progs.append(p)
+    # trace family: the same chains with a call monitor in every closure; result and the multiset of
+    # (closure, element) calls must equal the std chain's (a closure that panics on an element std never
+    # passes to it would otherwise turn a value into a panic)
+    tprogs = [p.traced() for p in all_programs(3 if thorough else 2) if p.closures() >= 1 and p.expectation() in ("S", "H")]
+    if not thorough:
+        tr_rnd = random.Random(seed * 104729 + 5)
+        for _ in range(600):
+            p = random_program(tr_rnd, 3, 4)
+            if p.closures() >= 1 and p.expectation() in ("S", "H"):
+                tprogs.append(p.traced())
+    progs += tprogs
     ids = list(enumerate(progs))
     # batches: <= 250 programs per file keeps rustc near-linear
     per = 250
@@ -393,6 +487,7 @@ def run(out, tier, seed):
             if f[0] == "P":
                 pid, ev, both, s_only, h_only, neither, panics = (int(x) for x in f[1:8])
                 detail = f[8] if len(f) > 8 else ""
+                k5 = int(f[9]) if len(f) > 9 else 0
                 p = progs[pid]
                 exp = p.expectation()
                 desc = "eval!/for_each!(%s)" % ", ".join(p.exprs()[0:1])
@@ -417,8 +512,14 @@ def run(out, tier, seed):
                     bad = ("differs-from-documented-exception", "%d of %d evaluations differ from the hoisted-reversal chain (documented enumerate/rposition behaviour)" % (s_only + neither, ev))
                 elif exp.startswith("K1") and neither:
                     bad = ("differs-from-std-and-from-K1-prediction", "%d of %d evaluations equal neither the std chain nor the value known finding K1 predicts" % (neither, ev))
+                if p.trace:
+                    hist["trace-family"] = hist.get("trace-family", 0) + ev
                 if bad:
-                    out.fail("%s:%s" % (bad[0], "+".join(p.names())), "iterator DSL", "program %d: %s | first: %s" % (pid, p.exprs()[0], detail[:500]), bad[1], "std: " + p.exprs()[1], "generated-program", cmd=b, source=src)
+                    out.fail("%s%s:%s" % ("closure-calls:" if p.trace else "", bad[0], "+".join(p.names())), "iterator DSL", "program %d: %s | first: %s" % (pid, p.exprs()[0], detail[:500]), bad[1], "std: " + p.exprs()[1], "generated-program", cmd=b, source=src)
+                elif k5:
+                    out.failures.append({"sig": "K5:take-evaluates-one-more-upstream-element", "api": "iterator DSL", "input": "program %d: %s | first: %s" % (pid, p.exprs()[0], detail[:300]),
+                                         "got": "%d of %d evaluations: the closures before take(n) are also called on the element after the n-th, exactly as the K5 model (take pulls and discards one more item) predicts" % (k5, ev),
+                                         "want": "std: " + p.exprs()[1], "engine": "generated-program", "variant": "", "sub": "", "cmd": b, "count_for_sig": k5})
                 elif exp.startswith("K1") and h_only:
                     k1_seen[exp] = k1_seen.get(exp, 0) + h_only
                     out.failures.append({"sig": exp, "api": "iterator DSL", "input": "program %d: %s | first: %s" % (pid, p.exprs()[0], detail[:300]), "got": "%d of %d evaluations equal the hoisted-reversal chain instead of std" % (h_only, ev),
